@@ -163,6 +163,7 @@ type c11Sup struct {
 	gaveUp     bool
 	kinds      map[string]map[string]bool // key → violation kinds seen when it was run (by this shard)
 	suppressed int64
+	unended    map[string]any
 }
 
 // failsWith reports whether (variant, seq) shows violation kind k (running it
@@ -266,7 +267,7 @@ func (s *c11Sup) run(variant string, seq []int, count bool) (res c11Result, ok b
 		s.w.stop()
 		s.w = nil
 		dump := w.stderr.String()
-		s.crashes++
+		s.crashes += 5 // a hang costs the whole watchdog interval: give up sooner
 		s.note(key, "hang")
 		if count {
 			s.r.Eval(c11P, 1)
@@ -308,6 +309,9 @@ func (s *c11Sup) run(variant string, seq []int, count bool) (res c11Result, ok b
 	for _, v := range res.Viol {
 		s.note(key, v.Kind)
 	}
+	if res.AttemptEnds != "" {
+		s.note(key, "attempt-ends")
+	}
 	if count {
 		s.r.Eval(c11P, 1)
 		s.r.Outcome(c11P, res.Class)
@@ -319,6 +323,15 @@ func (s *c11Sup) run(variant string, seq []int, count bool) (res c11Result, ok b
 		}
 		if res.EndAgrees != "" {
 			s.r.AddInt(c11P, "stats_end_event_status/"+res.EndAgrees, 1)
+		}
+		if res.AttemptEnds != "" {
+			// statistic only (routed to C23); list the 1-minimal sequences
+			s.note(key, "attempt-ends")
+			s.r.AddInt(c11P, "rpc_attempt_without_exactly_one_stats_End/count", 1)
+			if s.minimal(variant, seq, "attempt-ends") {
+				s.unended[key+" ("+res.AttemptEnds+")"] = 1
+				s.r.Set(c11P, "rpc_attempt_without_exactly_one_stats_End/minimal_sequences", s.unended)
+			}
 		}
 		for _, v := range res.Viol {
 			s.report(variant, seq, v.Kind, v.Desc+fmt.Sprintf(" [unary: %s] [stream: %s] [client sent: %s]", res.Unary, res.Stream, res.ClientLog))
@@ -370,13 +383,13 @@ func TestVerif_C11_BadServer(t *testing.T) {
 	g := c11Grammar()
 	n := len(g)
 	depth := r.Pick(2, 3)
-	r.Rule(c11P, fmt.Sprintf("every sequence of 1..%d symbols of a %d-symbol grammar of server frames / bytes (SETTINGS, HEADERS menus, CONTINUATION, DATA, RST_STREAM, PING, GOAWAY, WINDOW_UPDATE, PUSH_PROMISE, PRIORITY, unknown type, garbage, truncation, close, +6 s of virtual time) is sent on the first connection of a real grpc.ClientConn that carries a bidi stream (id 1, deadline 7 s) and a unary RPC (id 3, deadline 5 s), one synctest bubble per sequence, in the client variants open (stream still sendable, quiescence after each frame; full depth), half (CloseSend first; depth<=2) and burst (frames back-to-back; depth<=2). An extension of a prefix after which the first connection no longer exists (open/half) is not run: it is the same history as the prefix. Non-trivial = distinct (variant, sequence) after which the connection was torn down, the channel re-dialed, a message was delivered, or an RPC ended otherwise than DEADLINE_EXCEEDED exactly at its deadline.", depth, n))
+	r.Rule(c11P, fmt.Sprintf("every sequence of 1..%d symbols of a %d-symbol grammar of server frames / bytes (SETTINGS, HEADERS menus, CONTINUATION, DATA, RST_STREAM, PING, GOAWAY, WINDOW_UPDATE, PUSH_PROMISE, PRIORITY, unknown type, garbage, truncation, close, +6 s of virtual time) is sent on the first connection of a real grpc.ClientConn that carries a bidi stream (id 1, deadline 7 s) and a unary RPC (id 3, deadline 5 s), one synctest bubble per sequence, in each of the client variants open (stream still sendable, quiescence after each frame), half (CloseSend first, quiescence after each frame) and burst (like open, frames written back-to-back). In open/half an extension of a prefix after which the first connection no longer exists is not run: it is the same history as the prefix (burst is never pruned). Non-trivial = distinct (variant, sequence) after which the connection was torn down, the channel re-dialed, a message was delivered, or an RPC ended otherwise than DEADLINE_EXCEEDED exactly at its deadline.", depth, n))
 	r.Assume(c11P, "testing/synctest quiescence detection and virtual clock; GOMAXPROCS=1 worker processes; the x/net/http2 Framer of the raw peer writes what it is told (AllowIllegalWrites) and raw bytes for what it refuses")
 	r.Assume(c11P, "connections the channel dials after the first one reach a silent, well-behaved server (SETTINGS + acks only)")
 	r.Assume(c11P, "a worker that neither answers nor dies within the watchdog interval of real time is reported as a hang of the sequence in flight (only reachable when a goroutine is blocked invisibly to the bubble or spins)")
 	r.Set(c11P, "alphabet", n)
 	r.Set(c11P, "depth_bound", depth)
-	sup := &c11Sup{t: t, r: r, g: g, stall: 240 * time.Second, kinds: map[string]map[string]bool{}}
+	sup := &c11Sup{t: t, r: r, g: g, stall: 240 * time.Second, kinds: map[string]map[string]bool{}, unended: map[string]any{}}
 	if v := os.Getenv("VERIF_C11_STALL_S"); v != "" {
 		var sec int
 		fmt.Sscan(v, &sec)
@@ -447,9 +460,6 @@ func TestVerif_C11_BadServer(t *testing.T) {
 	item := 0
 	for _, variant := range []string{c11VOpen, c11VHalf, c11VBurst} {
 		vdepth := depth
-		if variant != c11VOpen && vdepth > 2 {
-			vdepth = 2
-		}
 		prune := variant != c11VBurst
 		// depth 1: every shard runs all of them (it needs the dead bits), the owner records them
 		dead1 := make([]bool, n)
